@@ -15,7 +15,7 @@ from collections import defaultdict, deque
 from facts import op_const, op_local, is_place_op, match_name, origins
 
 TOP64 = (0, (1 << 64) - 1)
-LEN_MAX = 1 << 40          # assumption A-mem: in-memory buffer lengths (and their sums of a few) stay far below 2^64
+LEN_MAX = 1 << 28          # assumption A-mem: no in-memory message buffer exceeds 256 MiB (frames are <= 64 KiB); sums of a few fit u32/usize
 
 
 def type_range(int_info):
@@ -158,7 +158,7 @@ class State:
 
 
 class Site:
-    __slots__ = ('body', 'block', 'kind', 'desc', 'verdict', 'rule', 'detail', 'sig', 'ops')
+    __slots__ = ('body', 'block', 'kind', 'desc', 'verdict', 'rule', 'detail', 'sig', 'ops', 'why')
 
     def __init__(self, body, block, kind, desc, sig, ops=None):
         self.body = body
@@ -170,6 +170,7 @@ class Site:
         self.rule = None
         self.detail = ''
         self.ops = ops or []
+        self.why = ''
 
     def where(self):
         return '%s:%d' % (self.body.file, self.body.block_line(self.block))
@@ -189,6 +190,8 @@ class Engine:
 
     def __init__(self, P):
         self.P = P
+        self.phase2 = False
+        self.known_called = set()
         self.param = {}       # body key -> {param index: interval}  (join over call sites; absent = no in-crate caller)
         self.ret = {}         # body key -> interval of the int / payload return value
         self.field = {}       # (owner, name) -> interval (int or payload)
@@ -201,8 +204,11 @@ class Engine:
         # phase 2: parameter joins recomputed from scratch against the (sound, fixed-point) summaries of phase 1, so that an
         # imprecise early value of a parameter does not stick
         self._run(keys, max_rounds)
+        # phase 2 is a least fixpoint from the roots: a function with in-crate callers is analysed only once a caller has
+        # supplied argument intervals (its parameter join starts at bottom)
         self.param = {}
-        self.has_caller = set()
+        self.phase2 = True
+        self.known_called = set(self.has_caller)
         self.__dict__.pop('_cs_memo', None)
         self._run(keys, max_rounds)
         return self
@@ -221,6 +227,9 @@ class Engine:
             if rounds[k] > max_rounds:
                 continue
             b = P.bodies[k]
+            if self.phase2 and k in self.known_called and k not in self.param:
+                rounds[k] -= 1
+                continue        # no caller has been analysed yet: parameters are still bottom
             it = Interp(self, b, k, widen_params=rounds[k] > 6)
             it.run()
             self.results[k] = it
@@ -266,6 +275,25 @@ class Engine:
                             inq.add(k2)
         return self
 
+
+    def len_preserving(self, ck):
+        """local function that never changes the number of elements of the Vec behind its &mut self (it only iterates):
+        no Vec length mutator is called and `*self` is never reassigned"""
+        memo = self.__dict__.setdefault('_lp', {})
+        if ck in memo:
+            return memo[ck]
+        b = self.P.bodies.get(ck)
+        ok = b is not None and b.local_ty(1).startswith('&mut std::vec::Vec<') if b is not None and b.arg_count >= 1 else False
+        if ok:
+            for c in b.calls:
+                if re.search(r'Vec::<T, A>::(push|pop|insert|remove|clear|truncate|resize|resize_with|extend\w*|append|drain|retain|swap_remove|dedup\w*|split_off|set_len)$', c.callee):
+                    ok = False
+            for bi in range(b.n):
+                for stt in b.blocks[bi]['stmts']:
+                    if stt['s'] == 'assign' and stt['place']['l'] == 1 and len(stt['place']['p']) == 1 and stt['place']['p'][0]['k'] == 'deref':
+                        ok = False
+        memo[ck] = ok
+        return ok
 
     def ret_for_consts(self, ck, args, argiv, caller, depth=0):
         """return interval of callee `ck` for a call whose integer arguments are all constants (context-sensitive, memoised)"""
@@ -574,6 +602,11 @@ class Interp:
                     st.org[l] = sk
                 if sk is not None and sk in st.mem and dk is not None:
                     st.mem.add(dk)
+                # moving a vector keeps its length cell
+                if not op['place']['p'] and rng is None:
+                    lc = st.iv.get(('cell', 'len', op['place']['l']))
+                    if lc is not None:
+                        st.iv[('cell', 'len', l)] = lc
                 # payload carrying values (Option/Result moves)
                 if not op['place']['p']:
                     pv = st.iv.get(('p', op['place']['l']))
@@ -925,6 +958,8 @@ class Interp:
                         saved_len = (old[0] + 1, old[1] + 1) if old is not None else (1, LEN_MAX)
                     if bo is not None and re.search(r'Vec::<T, A>::resize$', name) and len(args) >= 2:
                         saved_len = self.eval_op(st, args[1])
+                    if bo is not None and saved_len is None and ck is not None and self.eng.len_preserving(ck):
+                        saved_len = st.iv.get(('cell', 'len', bo))
                     for tgt in self.ref_targets(al):
                         self.kill(st, tgt)
                     if bo is not None:
@@ -969,6 +1004,11 @@ class Interp:
             a0 = args[0]
             if is_place_op(a0) and not a0['place']['p']:
                 pres = st.iv.get(('p', a0['place']['l']))
+                if ('p', a0['place']['l']) in st.mem and dl is not None:
+                    st.mem.add(('p', dl))
+        elif re.search(r'^std::io::Read::read$|^model::link::Stream::<S>::read$', name) and dl is not None:
+            pres = (0, LEN_MAX)
+            st.mem.add(('p', dl))
         elif re.search(r'(Option::<T>|Result::<T, E>)::(unwrap|expect)$', name) and args:
             a0 = args[0]
             if is_place_op(a0) and not a0['place']['p']:
@@ -1179,6 +1219,24 @@ class Interp:
                     work.append(tgt)
                     inw.add(tgt)
         return self
+
+    def state_at_term(self, b):
+        """abstract state just before the terminator of block b (entry state + the block's statements)"""
+        st0 = self.in_states.get(b)
+        if st0 is None:
+            return None
+        st = st0.copy()
+        if st.dead:
+            return st
+        saved_sites, saved_calls, saved_fs = self.sites, self.call_args, self.field_stores
+        self.sites, self.call_args, self.field_stores = [], [], []
+        try:
+            for si, stt in enumerate(self.body.blocks[b]['stmts']):
+                if stt['s'] == 'assign':
+                    self.assign(st, stt['place'], stt['rv'], b, si)
+        finally:
+            self.sites, self.call_args, self.field_stores = saved_sites, saved_calls, saved_fs
+        return st
 
     def transfer_block(self, st, b):
         body = self.body
